@@ -31,7 +31,7 @@ def src_hash(guard):
         h.update(f.encode())
         with open(f, "rb") as fh:
             h.update(fh.read())
-    h.update(b"guard" if guard else b"plain")
+    h.update(b"guard-g" if guard else b"plain")
     return h.hexdigest()[:16]
 
 
@@ -46,9 +46,11 @@ def ensure_build(guard=False):
         if os.path.exists(done):
             return pkg
         # prune old builds (keep disk small)
+        # (only builds that nothing can still be using: a check that started before the sources changed keeps importing from its own build)
+        import time
         for d in os.listdir(BUILD_ROOT):
             p = os.path.join(BUILD_ROOT, d)
-            if os.path.isdir(p) and d[0] == ("g" if guard else "p") and p != root:
+            if os.path.isdir(p) and d[0] == ("g" if guard else "p") and p != root and time.time() - os.path.getmtime(p) > 4 * 3600:
                 shutil.rmtree(p, ignore_errors=True)
         shutil.rmtree(root, ignore_errors=True)
         cv = os.path.join(pkg, "cvxopt")
@@ -64,7 +66,7 @@ def ensure_build(guard=False):
         for m, srcs in CMODS.items():
             cmd = ["gcc", "-O2", "-fPIC", "-shared", "-w", "-I" + inc, "-I" + os.path.join(REPO, "src/C")]
             if guard:
-                cmd += ["-include", os.path.join(VERIF, "build/guard_alloc.h")]
+                cmd += ["-g", "-include", os.path.join(VERIF, "build/guard_alloc.h")]      # -g: a crash site can be named (gdb)
             cmd += [os.path.join(REPO, "src/C", s) for s in srcs]
             cmd += ["-o", os.path.join(cv, m + SUFFIX), "-llapack", "-lblas", "-lm"]
             procs.append((m, subprocess.Popen(cmd, stdout=subprocess.PIPE, stderr=subprocess.STDOUT, text=True)))
